@@ -4,6 +4,8 @@ package main
 // methods (by interface contract).
 
 import (
+	"os"
+	"regexp"
 	"fmt"
 	"go/ast"
 	"go/token"
@@ -487,6 +489,26 @@ func (fr *Frame) callByContract(fc *FuncContract, sig *types.Signature, srcNames
 				}
 			}
 		}
+		if sv, ok := v.(SliceV); ok && i < len(fc.Results) && os.Getenv("OWVC_NOSUB") == "" {
+			// "R.id == x.g_attr" in a postcondition: the result is that very object
+			// (substituted, so that later reads through it simplify syntactically)
+			re := regexp.MustCompile(`(^|&& )` + regexp.QuoteMeta(fc.Results[i]) + `\.id == (\w+\.g_\w+)( &&|$)`)
+			for _, cl := range fc.Clauses {
+				if cl.Kind != "ensures" {
+					continue
+				}
+				if m := re.FindStringSubmatch(cl.Src); m != nil {
+					func() {
+						defer func() { recover() }()
+						if t, ok := c.eval(post, parseExprSrc(m[2], cl.File, cl.Line)).(T); ok {
+							sv.ID = t
+							v = sv
+						}
+					}()
+					break
+				}
+			}
+		}
 		out = append(out, v)
 		if i < len(fc.Results) {
 			post.names[fc.Results[i]] = v
@@ -601,6 +623,17 @@ func (fr *Frame) havocTarget(env *Env, st *State, target string) {
 				name := "ND.cells." + string(k)
 				h := c.heap(st, name, heapSort(k))
 				c.setHeap(st, name, c.def("Hc", c.sto(h, x.Ref, c.fresh("cells", arrSort(k)))), &x.Ref)
+				if c.fc != nil && c.fc.RowMajor {
+					// the slice x.Unroll() returns may be x's own storage: it changes with the elements
+					c.declareFun("ghost.g_unrollid", []Sort{SInt}, SInt)
+					uid := app(SInt, "ghost.g_unrollid", x.Ref)
+					hn := "H." + string(k)
+					hh := c.heap(st, hn, heapSort(k))
+					save := c.inUnrollHavoc
+					c.inUnrollHavoc = true
+					c.setHeap(st, hn, c.def("Hc", c.sto(hh, uid, c.fresh("unrolled", arrSort(k)))), &uid)
+					c.inUnrollHavoc = save
+				}
 				return
 			}
 		case StructPtr:
@@ -840,6 +873,9 @@ func (fr *Frame) ndInvoke(recv IfaceV, rt types.Type, m *types.Func, args []Val,
 	if c.fc != nil && c.fc.RowMajor {
 		// general-rank interface model: element j (row-major) of x is x.at(j), its extents are x.shape
 		fc = c.cs.Ifaces["rowmajor:"+name]
+		if alt := c.cs.Ifaces[c.fc.RowMajorForm+":"+name]; alt != nil {
+			fc = alt
+		}
 	}
 	if fc == nil {
 		panic(vcErr("no interface contract for ND method %s", name))
@@ -847,6 +883,25 @@ func (fr *Frame) ndInvoke(recv IfaceV, rt types.Type, m *types.Func, args []Val,
 	recv.Typ = rt
 	c.oblige(st, "nil", "", nil, app(SBool, ">", recv.Ref, intLit(0)), pos, "receiver of "+name+" is not nil")
 	all := append([]Val{recv}, args...)
+	// "callsite iface:Method" clauses apply to calls through the array interfaces (arg0 is the receiver)
+	if c.fc != nil && (fr.top || c.locMode) && c.specMode == 0 {
+		for _, cl := range c.fc.Clauses {
+			if (cl.Kind != "callsite" && cl.Kind != "callinst") || cl.Callee != "iface:"+name {
+				continue
+			}
+			env := &Env{c: c, fr: fr, st: st, old: fr.old, names: fr.env0, oldNames: fr.env0, bound: map[string]Val{}, blk: fr.curBlock, atLatch: true}
+			for i, a := range all {
+				env.bound[fmt.Sprintf("arg%d", i)] = a
+			}
+			if cl.Kind == "callinst" {
+				c.assume(st.reach, c.lemmaInstance(env, cl.Src, cl.File, cl.Line))
+				continue
+			}
+			g := c.evalBool(env, cl.Expr)
+			c.oblige(st, "callsite", cl.Label, cl.Props, g, pos, "at the call of "+name+": "+cl.Src)
+			c.assume(st.reach, g)
+		}
+	}
 	sig := m.Type().(*types.Signature)
 	names := []string{"x"}
 	for i := 0; i < sig.Params().Len(); i++ {
